@@ -88,7 +88,7 @@ func init() {
 	props["C13"] = &propDef{
 		info: PropInfo{
 			Bounds: []string{
-				"1..2 tiles with symbolic hZoom (0..35), x, y, z and symbolic base offset (|off| <= 2^30); (tile vZoom, base exponent, output vZoom) case-split over a sample (quick 8, thorough 30 combinations); vertical run length per tile assumed <= 3 (quick) / 4 (thorough)",
+				"1..2 tiles (the second one at the same vertical zoom, one level finer or one level coarser) with symbolic hZoom (0..35), x, y, z and symbolic base offset (|off| <= 2^30); (tile vZoom, base exponent, output vZoom) case-split over a sample (quick 8, thorough 30 combinations); vertical run length per tile assumed <= 3 (quick) / 4 (thorough)",
 				"expected vertical range = the result of the real ConvertAltitudekeyToMinMaxZ (whose covering property is C12); set equality and exactly-once through a symbolic probe ID",
 				"spatial variant: one tile, |hZoom - outputVZoom| <= 2, run length <= 2, compared as a set with the expansion of the extended results",
 			},
@@ -112,9 +112,14 @@ func init() {
 			}
 			for _, c := range combos {
 				for n := 1; n <= 2; n++ {
-					in := mk("transform", "VerifC13Tiles", cs("n", n, "zk", c[0], "e", c[1], "ov", c[2], "maxrun", mr))
-					in.Unwind = 40
-					is = append(is, in)
+					for _, dz := range []int{0, 1, -1} {
+						if dz != 0 && (n == 1 || c[0]+dz < 0 || c[0]+dz > 35) {
+							continue
+						}
+						in := mk("transform", "VerifC13Tiles", cs("n", n, "zk", c[0], "e", c[1], "ov", c[2], "maxrun", mr, "dz", dz))
+						in.Unwind = 40
+						is = append(is, in)
+					}
 				}
 			}
 			for _, c := range [][4]int{{3, 25, 25, 3}, {3, 25, 25, 4}, {4, 25, 25, 3}, {2, 3, 25, 4}, {25, 25, 25, 25}, {1, 25, 25, 3}} {
@@ -126,8 +131,8 @@ func init() {
 		},
 		tv: func(tier string, seed int64) []*TV {
 			return []*TV{
-				{Harness: "VerifC13Tiles", PkgDir: "transform", Unwind: 40, Case: cs("n", 1, "zk", 25, "e", 25, "ov", 25, "maxrun", 3), Inputs: map[string]string{"off": "-2", "h0": "20", "x0": "85263", "y0": "65423", "z0": "3", "ph": "20", "px": "85263", "py": "65423", "pf": "5"}},
-				{Harness: "VerifC13Tiles", PkgDir: "transform", Unwind: 40, Case: cs("n", 2, "zk", 24, "e", 25, "ov", 25, "maxrun", 3), Inputs: map[string]string{"off": "0", "h0": "5", "x0": "1", "y0": "2", "z0": "3", "h1": "5", "x1": "1", "y1": "2", "z1": "3", "ph": "5", "px": "1", "py": "2", "pf": "7"}},
+				{Harness: "VerifC13Tiles", PkgDir: "transform", Unwind: 40, Case: cs("n", 1, "zk", 25, "e", 25, "ov", 25, "maxrun", 3, "dz", 0), Inputs: map[string]string{"off": "-2", "h0": "20", "x0": "85263", "y0": "65423", "z0": "3", "ph": "20", "px": "85263", "py": "65423", "pf": "5"}},
+				{Harness: "VerifC13Tiles", PkgDir: "transform", Unwind: 40, Case: cs("n", 2, "zk", 24, "e", 25, "ov", 25, "maxrun", 3, "dz", 0), Inputs: map[string]string{"off": "0", "h0": "5", "x0": "1", "y0": "2", "z0": "3", "h1": "5", "x1": "1", "y1": "2", "z1": "3", "ph": "5", "px": "1", "py": "2", "pf": "7"}},
 				{Harness: "VerifC13Spatial", PkgDir: "transform", Unwind: 80, Case: cs("h", 3, "zk", 25, "e", 25, "ov", 4), Inputs: map[string]string{"off": "0", "x": "5", "y": "6", "z": "1000000"}},
 			}
 		},
